@@ -2417,6 +2417,23 @@ fn main() {
                     _ => {}
                 }
             }
+            // N3 (continued): any other constant keeps its text, but reference types inside its type get the `'static` the
+            // source may elide (inside verus! a constant is a function and elided lifetimes are an error for the whole file)
+            if let Item::Const(c) = &it {
+                struct StaticRefs;
+                impl VisitMut for StaticRefs {
+                    fn visit_type_reference_mut(&mut self, r: &mut TypeReference) {
+                        if r.lifetime.is_none() {
+                            r.lifetime = Some(Lifetime::new("'static", Span::call_site()));
+                        }
+                        visit_mut::visit_type_reference_mut(self, r);
+                    }
+                }
+                let mut c2 = c.clone();
+                StaticRefs.visit_type_mut(&mut c2.ty);
+                rest.push(Item::Const(c2));
+                continue;
+            }
             rest.push(it);
         }
         file.items = rest;
